@@ -334,13 +334,16 @@ func (t FunctionBlock) serializeTo(writer io.StringWriter) {
 // writing chunks as Unicode string
 // by calling the provided `write` callback.
 func serializeTo(nodes []Token, writer io.StringWriter) {
-	var previousType string
+	var (
+		previousType string
+		previous     Token
+	)
 	for _, node := range nodes {
 		serializationType := node.Kind().String()
 		if literal, ok := node.(Literal); ok {
 			serializationType = literal.Value
 		}
-		if badPairs[[2]string{previousType, serializationType}] {
+		if badPairs[[2]string{previousType, serializationType}] || identFuses(previous, serializationType) {
 			writer.WriteString("/**/")
 		} else if previousType == "\\" {
 			whitespace, ok := node.(Whitespace)
@@ -350,8 +353,25 @@ func serializeTo(nodes []Token, writer io.StringWriter) {
 			}
 		}
 		node.serializeTo(writer)
-		previousType = serializationType
+		previousType, previous = serializationType, node
 	}
+}
+
+// identFuses reports the two identifiers that are read as something else
+// when a literal follows them: `--` followed by `>` is the CDC token, and
+// `u` or `U` followed by `+` starts a unicode-range.
+func identFuses(previous Token, next string) bool {
+	ident, ok := previous.(Ident)
+	if !ok {
+		return false
+	}
+	switch ident.Value {
+	case "--":
+		return next == ">"
+	case "u", "U":
+		return next == "+"
+	}
+	return false
 }
 
 func (t QualifiedRule) serializeTo(writer io.StringWriter) {
